@@ -218,7 +218,7 @@ class NameGen:
 WEIGHTS = {
     'add_fp': 30, 'add_dir': 14, 'rm_file': 6, 'rm_dir': 4, 'add_link': 8, 'rm_link': 5,
     'add_symlink': 5, 'hide': 3, 'add_eltorito': 3, 'rm_eltorito': 1, 'add_isohybrid': 1,
-    'rm_isohybrid': 1, 'dup_pvd': 0.3, 'restart': 4, 'mass_dirs': 1, 'mass_files': 1, 'add_boot_file': 0, 're_add': 1.5, 'chain_dirs': 0.8, 'mass_eltorito': 0.05, 'shared_hidden_boot': 0.5,
+    'rm_isohybrid': 1, 'dup_pvd': 0.3, 'restart': 4, 'mass_dirs': 1, 'mass_files': 1, 'add_boot_file': 0, 're_add': 1.5, 'chain_dirs': 0.8, 'mass_eltorito': 0.05, 'shared_hidden_boot': 0.5, 'hybrid_setup': 0.3,
 }
 
 
@@ -950,6 +950,67 @@ class OpGen:
         e1 = {'op': 'add_eltorito', 'boot': op['iso'], 'media': 'noemul', 'platform': 0, 'bootable': True, 'load_seg': 0, 'efi': False, 'bit': False}
         e2 = dict(e1, efi=True, platform=0xef)
         return [op, e1, e2, {'op': 'rm_link', 'ns': 'iso', 'path': op['iso']}]
+
+    def g_hybrid_setup(self):
+        """Macro-op: everything an isohybrid image needs in one go - an isolinux-shaped boot image as Initial Entry, optionally
+        one or two EFI images, and add_isohybrid (with EFI / Mac support when the images are there).  Single ops reach this
+        state too, but only in one history in a few hundred."""
+        m = self.m
+        r = self.ra
+        if m.eltorito or m.hybrid:
+            return None
+        parent = self._pick_dir('iso', 7 if not (m.rr or m.cfg['level'] == 4) else None)
+        if parent is None:
+            return None
+        out = []
+        taken = set()
+
+        def boot_file(size, overlays):
+            for _ in range(6):
+                nm = self._new_iso_name(parent, False, long_ok=False)
+                if nm is not None and nm not in taken and nm.split(';')[0] not in {t.split(';')[0] for t in taken}:
+                    break
+            else:
+                return None
+            taken.add(nm)
+            op = {'op': 'add_fp', 'blob': self.next_blob, 'len': size, 'route': 'fp', 'iso': M.join(parent, nm), 'overlays': overlays}
+            if m.rr:
+                for _ in range(6):
+                    rn = self._new_rr_name(parent)
+                    if rn is not None and rn not in {o.get('rr') for o in out}:
+                        break
+                else:
+                    return None
+                op['rr'] = rn
+            self.next_blob += 1
+            return op
+        b0 = boot_file(r.choice((2048, 4096, 8192, 20480)), [[0x40, 'fbc07870']])
+        if b0 is None:
+            return None
+        b0['bootkind'] = 'isolinux'
+        out.append(b0)
+        out.append({'op': 'add_eltorito', 'boot': b0['iso'], 'media': 'noemul', 'platform': 0, 'bootable': True, 'load_seg': 0, 'efi': False,
+                    'bit': r.random() < 0.4, 'load_size': 4})
+        n_efi = r.choice((0, 1, 1, 2))
+        for _ in range(n_efi):
+            if r.random() < 0.25:
+                boot = b0['iso']           # the EFI entry boots the file of the Initial Entry
+            else:
+                be = boot_file(r.choice((512, 2048, 4096, 6000)), [])
+                if be is None:
+                    return None
+                out.append(be)
+                boot = be['iso']
+            out.append({'op': 'add_eltorito', 'boot': boot, 'media': 'noemul', 'platform': 0xef, 'bootable': True, 'load_seg': 0, 'efi': True, 'bit': False})
+        hy = {'op': 'add_isohybrid', 'part_entry': r.choice((1, 1, 4)), 'mbr_id': r.choice((None, r.getrandbits(32))),
+              'part_offset': r.choice((0, 0, 1, 16)), 'sectors': r.choice((32, 63)), 'heads': r.choice((64, 255)), 'part_type': None,
+              'mac': False, 'efi': None}
+        if n_efi >= 1 and r.random() < 0.8:
+            hy['efi'] = True
+            if n_efi >= 2 and r.random() < 0.5:
+                hy['mac'] = True
+        out.append(hy)
+        return out
 
     def g_mass_eltorito(self):
         """Macro-op: boot files and El Torito entries until the catalog is (nearly) full: an Initial Entry and 31 sections
